@@ -106,6 +106,8 @@ class SymArray(np.ndarray):
 
     @property
     def real(self):
+        if not self.is_complex():
+            return self             # numpy: the real part of a real array is the array itself
         return _map(self, lambda e: e.real if isinstance(e, Sym) else np.real(e))
 
     @real.setter
@@ -121,12 +123,16 @@ class SymArray(np.ndarray):
         raise SymError("assignment to .imag")
 
     def conj(self):
+        if not self.is_complex():
+            return self             # numpy: ndarray.conj() of a real array returns the same object (aliasing matters)
         return _map(self, lambda e: e.conjugate())
 
     conjugate = conj
 
     def astype(self, dt, *a, **kw):
         k = dtype_kind(dt)
+        if kw.get('copy', True) is False and ((k == 'c') == self.is_complex()) and k in 'cf':
+            return self             # numpy: astype(copy=False) with a matching dtype does not copy
         if k == 'c':
             return _map(self, lambda e: _lift_elem(e, True))
         if k == 'f':
@@ -251,6 +257,8 @@ def _iscomplexobj(x):
 
 @implements(np.real)
 def _real(x):
+    if isinstance(x, SymArray):
+        return x.real
     return to_symarray(x).real if not isinstance(x, Sym) else x.real
 
 
